@@ -94,6 +94,8 @@ class State:
         self.params = dict(init)
         self.grid = build(self.params)
         self.nresc = 0
+        self.rejected = 0
+        self.dead = False
         self.failed = set()
 
     def apply(self, step):
@@ -109,6 +111,19 @@ class State:
                 g.changePositionFalloffScale(step["tailIn"], step["tailOut"], step["L"], step["center"])
                 for k in ("tailIn", "tailOut", "L", "center"):
                     self.params[k] = step[k]
+        elif step["op"] == "pos_bad":
+            # an INADMISSIBLE rescale request (a tail shorter than the documented minimum, or a non-positive wall
+            # thickness): Grid3Scales refuses it with an AssertionError.  A refused call is part of "every sequence
+            # of rescaling calls": afterwards the object must still be the grid of the last ACCEPTED scales, which
+            # check_state verifies against a rebuild from self.params (left untouched here).
+            try:
+                g.changePositionFalloffScale(step["tailIn"], step["tailOut"], step["L"], step["center"])
+            except AssertionError:
+                self.rejected += 1
+                return
+            # accepted after all (the precondition is not ours to demand): nothing further is known about the state
+            self.dead = True
+            return
         else:
             raise ValueError(step["op"])
         self.nresc += 1
@@ -521,7 +536,12 @@ def check_case(case) -> Verdict:
     check_state(state, v, "init")
     for i, step in enumerate(case["steps"]):
         state.apply(step)
+        if state.dead:
+            v.label("inadmissible-rescale-accepted")
+            break
         check_state(state, v, f"after step {i + 1}: {step['op']}")
+    if state.rejected:
+        v.label("history-with-refused-rescale")
     _finish(v, case["init"], case["steps"])
     return v
 
@@ -567,8 +587,28 @@ def st_init(draw):
 
 
 @st.composite
+def st_bad_step(draw, params):
+    """An inadmissible request for a Grid3Scales object (see State.apply)."""
+    r, s = params["r"], params["s"]
+    L = draw(st_scale())
+    kind = draw(st.sampled_from(["tailIn", "tailOut", "L<=0"]))
+    step = {"op": "pos_bad", "L": L, "tailIn": draw(st_tail(L, r, s)), "tailOut": draw(st_tail(L, r, s)),
+            "center": draw(st_center(L)), "bad": kind}
+    if kind == "L<=0":
+        step["L"] = draw(st.sampled_from([0.0, -L]))
+    else:
+        step[kind] = float(L * (0.5 + s) / r * (1.0 - 10.0 ** draw(st.floats(-3.0, -0.01))))
+    return step
+
+
+@st.composite
 def st_step(draw, params):
-    op = draw(st.sampled_from(["pos", "pos", "mom"]))
+    op = draw(st.sampled_from(["pos", "pos", "mom", "pos", "pos", "mom", "bad"]))
+    if op == "bad":
+        if params["gk"] == "Grid":
+            op = "pos"
+        else:
+            return draw(st_bad_step(params))
     if op == "mom":
         return {"op": "mom", "T": draw(st_scale())}
     L = draw(st_scale())
@@ -612,9 +652,20 @@ def machine(tier, acc):
         def _do(self, step):
             self.steps.append(step)
             self.state.apply(step)
+            if self.state.dead:
+                self.verdict.label("inadmissible-rescale-accepted")
+                return
+            if step["op"] == "pos_bad":
+                self.verdict.label("history-with-refused-rescale")
             check_state(self.state, self.verdict, f"after step {len(self.steps)}: {step['op']}")
 
-        @precondition(lambda self: self.state is not None)
+        @precondition(lambda self: self.state is not None and not self.state.dead
+                      and self.state.params["gk"] == "Grid3Scales")
+        @rule(data=st.data())
+        def refused_rescale(self, data):
+            self._do(data.draw(st_bad_step(self.state.params), label="bad"))
+
+        @precondition(lambda self: self.state is not None and not self.state.dead)
         @rule(data=st.data())
         def rescale_position(self, data):
             p = self.state.params
@@ -628,7 +679,7 @@ def machine(tier, acc):
                         "center": data.draw(st_center(L), label="center")}
             self._do(step)
 
-        @precondition(lambda self: self.state is not None)
+        @precondition(lambda self: self.state is not None and not self.state.dead)
         @rule(T=st_scale())
         def rescale_momentum(self, T):
             self._do({"op": "mom", "T": T})
